@@ -260,6 +260,9 @@ type IterOpts struct {
 	WantInfo   bool
 	Max        int // stop after this many messages (0 = unlimited)
 	AfterErr   int // further Next calls after a terminal error (outcomes in IterResult.After)
+	// InfoFirst: Reader.Info() is called before Reader.Messages() on the same Reader (its error, e.g. on a
+	// non-seekable source, is ignored)
+	InfoFirst bool
 	// Sample is called after every successful NextInto (C20 memory monitor).
 	Sample func(it mcap.MessageIterator, n int)
 }
@@ -280,6 +283,9 @@ func ReadMessages(r io.Reader, o IterOpts) *IterResult {
 				res.Metadata = append(res.Metadata, CanonMetadata(m))
 				return nil
 			}))
+		}
+		if o.InfoFirst {
+			_, _ = reader.Info()
 		}
 		it, err := reader.Messages(opts...)
 		if err != nil {
